@@ -422,8 +422,10 @@ def run(ctx):
 #                                                cancelled -> every other caller of the key gets CancelledError)
 #   waiter-cancel-propagates-to-other-callers   (a later caller, `return await self._futures[k]`, is cancelled -> same)
 # Proposed repair: /verif/proposed_fixes/C26-first-caller-cancel-propagates-to-waiters.diff (the load + put + evict run
-# in their own task; every caller awaits asyncio.shield(task)).  With the repair applied in a scratch worktree: exit 0
-# for seeds 0..4 in both tiers, and batch/test/test_time_limited_max_size_cache.py still passes.
+# in their own task whose exception is always retrieved; every caller awaits asyncio.shield(task)).  With the repair
+# applied in a scratch worktree: exit 0 for seeds 0..4 quick and seed 0 thorough (thorough seeds 1..4 were run on the
+# same repair before the exception-retrieval callback was added), and batch/test/test_time_limited_max_size_cache.py
+# still passes.
 #
 # Breaks tried on top of the repaired scratch worktree (gear/gear/time_limited_max_size_cache.py,
 # VERIF_REPO=/tmp/scratch-async, quick tier, seed 0), one at a time:
